@@ -256,6 +256,9 @@ def compare_python(py_payload, impl_payload, line, model_payload=None):
             elif w and v != w: why.append("exception %s, documented kind %s" % (v, w))
             elif want is None and v != "none": why.append("exception %s, not defined by the model of the Python layer" % v)
             continue
+        if k == "proto":
+            if v != "ok": why.append("iterator protocol: %s" % v)
+            continue
         if k not in I: continue
         if I[k] != v: why.append("%s: Python %s, Rust %s" % (k, v[:80], I[k][:80]))
     return why
